@@ -702,6 +702,15 @@ class Engine:
             return VOpt(sort, sort.dt.some(to_z3(v, sort.inner)))
         if isinstance(sort, _Real) and is_z3int(v):
             return to_z3(v, sort)
+        if v is NONE and isinstance(sort, MAYBE):
+            r = sort.inner.fresh("none")
+            r.none = z3.BoolVal(True)
+            return r
+        if isinstance(sort, MAYBE):
+            r = self.coerce(v, sort.inner, st, name)
+            if isinstance(r, (VList, VDict, VSet)) and getattr(r, "none", None) is None:
+                r.none = z3.BoolVal(False)
+            return r
         if isinstance(v, VOpt) and isinstance(sort, (_Int, _Real)):
             return self.unopt(st, v, "TypeError-None-argument")
         if isinstance(v, tuple) and v == ("emptyset",) and isinstance(sort, SET):
@@ -1321,6 +1330,10 @@ class Engine:
         for i, x in enumerate(items):
             arr = z3.Store(arr, i, to_z3(x, s))
         return VList(s, arr, z3.IntVal(len(items)))
+
+    def expr_Set(self, node, st):
+        # a set display of constants/tuples: kept as the collection of its items (membership and iteration)
+        return VTuple([self.eval(e, st) for e in node.elts])
 
     def expr_Dict(self, node, st):
         items = []
